@@ -258,14 +258,13 @@ impl PartialEq for ListType {
                         .all(|(x, y)| x.eq_complex(y, &typecheck_flags))
             }
             (E::Open(t1), E::Open(t2)) => t1.eq_complex(t2, &typecheck_flags),
-            (E::Mixed(t1), E::Open(t2)) | (E::Open(t2), E::Mixed(t1)) => {
-                for ty in t1 {
-                    if !t2.eq_complex(ty, &TypecheckFlags::<&ClassType>::classless()) {
-                        return false;
-                    }
-                }
-                true
-            }
+            // `self` is the expected type; the comparison is not symmetric for optionals
+            (E::Mixed(expected), E::Open(given)) => expected
+                .iter()
+                .all(|ty| ty.eq_complex(given, &typecheck_flags)),
+            (E::Open(expected), E::Mixed(given)) => given
+                .iter()
+                .all(|ty| expected.eq_complex(ty, &typecheck_flags)),
         }
     }
 }
